@@ -69,7 +69,7 @@ class C34(Check):
                    "future resolution is observed after the loop is drained"]
 
     def depth(self, tier):
-        return 5 if tier == "quick" else 7
+        return 5 if tier == "quick" else 8
 
     def partitions(self, tier):
         parts = [(("cond",), i) for i in range(len(COND_OPS))]
